@@ -319,10 +319,11 @@ class PipeState:
     def __init__(self, name, S, cap, fields=(), init_count=0):
         self.name, self.cap, self.fields = name, cap, list(fields)
         S.declare(f"{name}.n", W, init_count)
+        S.domain.append(z3.ULE(S[f"{name}.n"], BV(cap)))
         S.declare(f"{name}.closed", "bool", False)
         for j in range(cap):
             for f, sort in self.fields:
-                S.declare(f"{name}.{j}.{f}", "bool" if sort == "bool" else W, None if init_count else (False if sort == "bool" else 0))
+                S.declare(f"{name}.{j}.{f}", "bool" if sort == "bool" else W, False if sort == "bool" else 0)
 
 
 class ConnModel(Model):
